@@ -1432,6 +1432,43 @@ pub fn exec(plan: &SeqPlan) -> RunOut {
     if !crate::report::should_stop(&out) {
         w.full_check(&mut out);
     }
+    // an independent observer (SQLite, one run in six): ANOTHER PROCESS opens the directory and asks for
+    // each client's first version. Whatever this process believes about the stored state through its own
+    // connections, caches and statics, the data directory itself must hold the accepted history.
+    if !crate::report::should_stop(&out) && crate::rng::mix(&[plan.seed, 0x0B5E]) % 6 == 0 {
+        if let Some(dir) = w.store.dir.clone() {
+            crate::vfs::foreign_release_now();
+            crate::vfs::foreign_read_release_now();
+            let clients: Vec<Id> = w.clients.clone();
+            for c in clients {
+                let base = match w.model.client(&c) {
+                    Some(cl) if !cl.versions.is_empty() => cl.base.unwrap_or(uuid::Uuid::nil()),
+                    _ => continue,
+                };
+                let req = Req::GetChild { c, parent: base };
+                match crate::xproc::call(&dir, w.cfg, false, 0, plan.seed, 95_000_000, &req, &Chunking::Whole) {
+                    Ok((resp, _)) => {
+                        out.bump("probe.other_process_reads_the_directory");
+                        let mut m = w.model.clone();
+                        let t = sched::now_us();
+                        let mm = m.apply(&req, &resp, t, t, false);
+                        if let Some(first) = mm.first() {
+                            out.violations.push(viol(
+                                &["C13", "C07", "C06", "C04", "C01"],
+                                "state.other_process_disagrees",
+                                format!("another process reading the data directory does not see the accepted history: {} -> {} ({})", req.short(), resp.short(), first.msg),
+                            ));
+                            break;
+                        }
+                    }
+                    Err(e) => {
+                        out.harness_error = Some(format!("observer process could not be run: {e}"));
+                        break;
+                    }
+                }
+            }
+        }
+    }
     out.bump(&format!("cfg.backend.{:?}", plan.backend));
     out.bump(&format!("cfg.entry.{:?}", plan.entry));
     if let Some(ps) = plan.page_size {
